@@ -373,6 +373,7 @@ func tuneProfile(p *Plan, r *Rng, thorough bool) {
 	case "C05":
 		w["setrel"], w["xchg"], w["new"] = 16, 20, 16
 		p.DeadPermille = []int{50, 150, 300}[r.Intn(3)]
+		w["reset"] = []int{1, 1, 5}[r.Intn(3)] // targets, builders and registered filters that live across resets
 	case "C06":
 		w["setrel"], w["rm"], w["batch"], w["new"] = 16, 18, 12, 18
 		if p.Wide != "tables" {
